@@ -240,10 +240,11 @@ def create_redist_dict(
     if allocated < group_resource:
       extra = group_resource - allocated
       for (key, _) in sorted_scores:
-        realloc[key] = min(realloc[key] + 1, dim)
-        extra = extra - 1 if realloc[key] + 1 < dim else extra
         if extra <= 0:
           break
+        if realloc[key] < dim:
+          realloc[key] += 1
+          extra -= 1
 
     redist_dict = alloc_fn(redist_dict, group, realloc)
 
